@@ -475,3 +475,12 @@ _run_c17d = run
 def run(ctx):  # noqa: F811
     _run_c17d(ctx)
     r17_8(ctx, ctx.model)
+
+
+_run_c17e = run
+
+
+def run(ctx):  # noqa: F811
+    _run_c17e(ctx)
+    from .refusal import refusal_rule
+    refusal_rule(ctx, "R17.9", ["nifty.re.optimize"], "the JAX minimisers", floor=2)
